@@ -38,11 +38,13 @@ functions = [
     # (PointCloudSequentialDecoder reads num_points as int32 without a sign check; MeshSequentialDecoder narrows a uint32) must be refused here
     {'name': 'LinearSequencer_GenerateSequenceInternal', 'file': A + 'linear_sequencer.h', 'anchor': r'bool GenerateSequenceInternal\(\) override\s*\{',
      'sig': 'bool LinearSequencer_GenerateSequenceInternal(struct LinearSequencer *self)',
-     'subst': [(r'out_point_ids\(\)->resize\(((?:[^()]|\([^()]*\))*)\)', r'pid_resize(self, \1)', 0), (r'out_point_ids\(\)->at\(((?:[^()]|\([^()]*\))*)\)', r'self->out_point_ids.data[\1]', 0),
-               (r'out_point_ids\(\)->push_back\(', 'pid_push_back(self, ', 0), (r'out_point_ids\(\)->reserve\(((?:[^()]|\([^()]*\))*)\)', r'pid_reserve(self, \1)', 0), (r'out_point_ids\(\)->clear\(\)', 'pid_clear(self)', 0),
-               (r'PointIndex\(((?:[^()]|\([^()]*\))*)\)', r'((uint32_t)(\1))', 0)],
+     'subst': [(r'std::vector<PointIndex> \*(?:const )?(\w+) = out_point_ids\(\);', '', 0),      # a local alias of the output vector: every receiver is the one vector of the model
+               (r'(?:out_point_ids\(\)|\b\w+)->resize\(((?:[^()]|\([^()]*\))*)\)', r'pid_resize(self, \1)', 0), (r'(?:out_point_ids\(\)|\b\w+)->at\(((?:[^()]|\([^()]*\))*)\)', r'self->out_point_ids.data[\1]', 0),
+               (r'(?:out_point_ids\(\)|\b\w+)->push_back\(', 'pid_push_back(self, ', 0), (r'(?:out_point_ids\(\)|\b\w+)->reserve\(((?:[^()]|\([^()]*\))*)\)', r'pid_reserve(self, \1)', 0),
+               (r'(?:out_point_ids\(\)|\b\w+)->clear\(\)', 'pid_clear(self)', 0), (r'PointIndex\(((?:[^()]|\([^()]*\))*)\)', r'((uint32_t)(\1))', 0)],
      'members': ['num_points_'],
-     'loops': {0: '__CPROVER_assigns(i, __CPROVER_object_whole(self->out_point_ids.data))\n__CPROVER_loop_invariant(0 <= i && i <= self->num_points_)\n'
+     'loops': {0: '__CPROVER_assigns(i, self->out_point_ids.size, __CPROVER_object_whole(self->out_point_ids.data))\n__CPROVER_loop_invariant(0 <= i && i <= self->num_points_)\n'
+                  '__CPROVER_loop_invariant((__CPROVER_loop_entry(self->out_point_ids.size) == (size_t)self->num_points_ && self->out_point_ids.size == (size_t)self->num_points_) || (__CPROVER_loop_entry(self->out_point_ids.size) == 0 && self->out_point_ids.size == (size_t)i))\n'
                   '__CPROVER_loop_invariant(ghost_k < 0 || ghost_k >= i || self->out_point_ids.data[ghost_k] == (uint32_t)ghost_k)\n__CPROVER_decreases(self->num_points_ - i)'}},
 ]
 UNIT = {'name': 'attrdec', 'structs': [], 'consts': [], 'functions': functions,
@@ -70,7 +72,7 @@ for nc in [0] + list(range(1, 33)):
     J('DecodeIntegerValues.contract.nc%d' % nc, 'h_enf_SIAD_DecodeIntegerValues', ['C02', 'C03', 'C18'], enforce='SIAD_DecodeIntegerValues', loops=True, defines=DEFS + ['-DATTR_NC=%d' % nc],
       replace=['DecoderBuffer_DecodeBytes', 'DecodeSymbols', 'ConvertSymbolsToSignedInts_inplace', 'PS_AreCorrectionsPositive', 'PS_DecodePredictionData', 'PS_ComputeOriginalValues'],
       timeout=900, cost=4, cbmc=['--object-bits', '11'], tier=None if nc in (0, 1, 2, 3, 4, 5, 6, 8) else 'thorough', no_vacuity=nc > 2)
-J('LinearSequencer.contract', 'h_enf_LinearSequencer_GenerateSequenceInternal', ['C03', 'C02'], enforce='LinearSequencer_GenerateSequenceInternal', loops=True, replace=['pid_resize'])
+J('LinearSequencer.contract', 'h_enf_LinearSequencer_GenerateSequenceInternal', ['C03', 'C02'], enforce='LinearSequencer_GenerateSequenceInternal', loops=True, replace=['pid_resize', 'pid_push_back', 'pid_reserve', 'pid_clear'])
 J('rawvalues.rt', 'h_rawvalues_rt', ['C04', 'C05', 'C01'], unwind=34,
   unwind_reason='bounded: num_values <= 3 (loops over the values; 32-byte model initialisation; byte copies of <= 12 bytes); all symbol values; unwinding assertions on')
 J('ConvertSymbolsToSignedInts.inplace.contract', 'h_enf_ConvertSymbolsToSignedInts_inplace', ['C02', 'C17'], enforce='ConvertSymbolsToSignedInts_inplace', loops=True, timeout=900, cost=4)
